@@ -96,6 +96,8 @@ EXTRA_ENGINES = [
   "kind_free_text": "growth beyond the listed properties (G03): TLA+ state machine of elaunch's Setup/Run/finalisation and the status.txt document; TLC model checking (safety + liveness, repaired vs. code variants, named deviations); the real elaunch.py __main__ block executed from its AST on a deterministic world, every status version recorded and trace-validated under 16 repair combinations, TLC terminal outcomes compared with the real final status. Run with ./check G03 --tier quick|thorough (evidence/G03.json); not a property check."},
  {"name": "ExecutorChain", "path": "/verif/spec/ExecutorChain.tla", "serves_properties": ["C10", "C17"],
   "kind_free_text": "growth beyond the listed properties (G05): TLA+ function specs of executable resolution and command-line rendering executed case by case on the real executors classes, and through packages into real processes; a TLA+ state machine of the pre/main/post chain replayed on the real lsf.Task over a lock-stepped /bin/sh batch daemon, plus TLC trace validation of recorded random runs. Run with ./check G05 --tier quick|thorough (evidence/G05.json); not a property check."},
+ {"name": "TaskLifecycle", "path": "/verif/spec/TaskLifecycle.tla", "serves_properties": ["C12", "C13"],
+  "kind_free_text": "growth beyond the listed properties (G04): TLA+/TLC state machines of LocalTask (Popen + waiter thread on a modelled kernel), SimulatorTask and the monitor primitives (CreateMonitor / CreateDeathAction / CreateEventAction / MonitorExceptionTracker); every model transition replayed on the real classes in a lock-step thread world (scheduling points down to single source lines, virtual clock), random line-level interleavings trace-validated, returncode->exitReason table and exception tracker as function specifications. Run with ./check G04 --tier quick|thorough (evidence/G04.json); not a property check."},
 ]
 
 
